@@ -167,3 +167,46 @@ def check(ctx, rid, prop):
     r.stat('entries', len(tab))
     r.floor(found, max(1, int(len(tab) * 0.8)), 'reviewed boundaries found in the tree')
     return r
+
+
+# ------------------------------------------------------------------------------------------------ amount census
+
+AMOUNTS = os.path.join(HERE, 'rules', 'amounts.json')
+
+
+def amount_sites(F, f, callee):
+    """[(atoms of argument #idx as a '+'-joined string, line)] per call of `callee` in f, for idx = 1"""
+    out = []
+    for bi, t in f.calls_to(callee):
+        if len(t['a']) < 2:
+            continue
+        at = operand_atoms(f.expr_of_op(t['a'][1]))
+        out.append(('+'.join(sorted(at)) or '-', t['ln']))
+    return out
+
+
+def check_amounts(ctx, rid, prop):
+    """reviewed provenance of the byte / window amounts passed between the flow-control primitives"""
+    r = ctx.rule(rid, 'FLOW', 'amount census: each reviewed flow-control / budget call receives the amount derived from the reviewed source (wrong-variable edits change the source)')
+    F = ctx.facts
+    with open(AMOUNTS) as fh:
+        tab = [e for e in json.load(fh) if prop in e['props']]
+    found = 0
+    for e in tab:
+        f = F.fn(e['caller'])
+        if f is None:
+            r.ok('absent|%s|%s' % (e['caller'], e['callee']), '', 'caller not present in this configuration (not a violation)')
+            continue
+        got = sorted(a for a, ln in amount_sites(F, f, e['callee']))
+        lines = [ln for a, ln in amount_sites(F, f, e['callee'])]
+        if not got:
+            r.ok('absent|%s|%s' % (e['caller'], e['callee']), f.file, 'call not found (restructured?) — not a violation')
+            continue
+        found += 1
+        want = sorted(e['atoms'])
+        ok = got == want if len(got) == len(want) else set(got) <= set(want)
+        r.check(ok, 'amount|%s|%s' % (e['caller'].replace('proto::streams::', ''), e['callee'].replace('proto::streams::', '')), '%s:%s' % (f.file, lines[0]),
+                '%s passes %s to %s (reviewed: %s). %s' % (e['caller'].split('::')[-1] if 'closure' not in e['caller'] else e['caller'].split('::')[-2] + '::{closure}', got, e['callee'].split('::')[-1], want, e['why']))
+    r.stat('entries', len(tab))
+    r.floor(found, max(1, int(len(tab) * 0.8)), 'reviewed amount sites found in the tree')
+    return r
